@@ -71,6 +71,7 @@ impl ChainFacts {
   }
 }
 
+/// the chain `resolve` follows from `s`: redirect entries of specifiers that have no entry of their own
 pub fn chain_facts(g: &ModuleGraph, slot_keys: &HashSet<ModuleSpecifier>, s: &ModuleSpecifier) -> ChainFacts {
   let mut f = ChainFacts::default();
   let mut cur = s.clone();
@@ -78,8 +79,8 @@ pub fn chain_facts(g: &ModuleGraph, slot_keys: &HashSet<ModuleSpecifier>, s: &Mo
   seen.insert(cur.clone());
   while let Some(next) = g.redirects.get(&cur) {
     if slot_keys.contains(&cur) {
-      // the known defect (F12) is an *error* recorded on a member of a redirect chain; a module stored
-      // under a redirect source is something else
+      // an entry stored under a redirect source: the walk stops here, and (since the repair of
+      // F12 / F35) so do the lookups
       let is_error = g.verif_slots().into_iter().any(|(k, sl, _)| *k == cur && matches!(sl, Some(Err(_))));
       if is_error {
         f.slot_on_source = true;
@@ -87,6 +88,7 @@ pub fn chain_facts(g: &ModuleGraph, slot_keys: &HashSet<ModuleSpecifier>, s: &Mo
         f.module_on_source = true;
         f.modules_on_source.push(cur.clone());
       }
+      break;
     }
     f.hops += 1;
     if !seen.insert(next.clone()) {
@@ -98,19 +100,15 @@ pub fn chain_facts(g: &ModuleGraph, slot_keys: &HashSet<ModuleSpecifier>, s: &Mo
   f
 }
 
-/// `stale_final`: specifiers a lockfile lists as redirect sources although the loader reported them as the
-/// final specifier of a module it returned for another request (finding F35)
-fn classify(f: &ChainFacts, stale_final: &HashSet<ModuleSpecifier>) -> &'static str {
-  if f.module_on_source && f.modules_on_source.iter().all(|m| stale_final.contains(m)) {
-    "module-reported-as-final-under-stale-lockfile-redirect"
+fn classify(f: &ChainFacts) -> &'static str {
+  if f.hops >= RESOLVE_CAP_HOPS {
+    "resolve-cap"
+  } else if f.cyclic {
+    "redirect-cycle"
   } else if f.module_on_source {
     "module-stored-under-redirect-source"
   } else if f.slot_on_source {
     "slot-on-redirect-source"
-  } else if f.cyclic {
-    "redirect-cycle"
-  } else if f.hops >= RESOLVE_CAP_HOPS {
-    "resolve-cap"
   } else {
     "lookup-disagrees-with-walk"
   }
@@ -124,8 +122,6 @@ pub struct Case {
   pub ctx: Ctx,
   pub desc: Value,
   pub universe: Vec<ModuleSpecifier>,
-  /// see `classify`
-  pub stale_final: HashSet<ModuleSpecifier>,
 }
 
 /// requests + implementation answers + oracle for one graph
@@ -196,7 +192,7 @@ pub fn run_case(
       bad.push(format!("resolve not idempotent: {} -> {} -> {}", s, r1, r2));
     }
     if !bad.is_empty() && case.in_scope {
-      let shape = classify(&facts, &case.stale_final);
+      let shape = classify(&facts);
       report.fail(
         "oracle",
         shape,
@@ -242,7 +238,7 @@ pub fn run_case(
       };
       let got = listed.get(src.as_str()).cloned();
       if got != expect {
-        let shape = match classify(&facts, &case.stale_final) {
+        let shape = match classify(&facts) {
           "lookup-disagrees-with-walk" => "specifiers-disagrees-with-walk",
           other => other,
         };
@@ -279,7 +275,7 @@ pub fn run_case(
             let f3 = chain_facts(g, &slot_keys, src);
             report.fail(
               "oracle",
-              if f3.module_on_source { classify(&f3, &case.stale_final) } else { "resolve-dependency-differs-by-referrer-alias" },
+              if f3.module_on_source { classify(&f3) } else { "resolve-dependency-differs-by-referrer-alias" },
               format!("resolve_dependency({:?}, prefer_types={}) from {} = {:?}; from its redirect source {} = {:?}", text, prefer, m.specifier(), got2, src, got3),
               json!({"case": case.desc}),
             );
@@ -327,7 +323,7 @@ pub fn run_case(
           }
         };
         if got != expect {
-          let mut shape = classify(&facts, &case.stale_final);
+          let mut shape = classify(&facts);
           if shape == "lookup-disagrees-with-walk" {
             // the types dependency chain may be the long one
             shape = "resolve-dependency-disagrees-with-walk";
@@ -337,7 +333,7 @@ pub fn run_case(
                   if let Some(Resolution::Ok(r)) = js.maybe_types_dependency.as_ref().map(|d| &d.dependency) {
                     let f2 = chain_facts(g, &slot_keys, &r.specifier);
                     if f2.slot_on_source || f2.cyclic || f2.hops >= RESOLVE_CAP_HOPS {
-                      shape = classify(&f2, &case.stale_final);
+                      shape = classify(&f2);
                     }
                   }
                 }
@@ -441,7 +437,7 @@ pub fn run(tier: &str, seed: u64) -> Report {
     // a redirect whose source has a slot cannot come from a build or from lockfile seeding of
     // a fresh graph; such tables validate the model only
     let in_scope = (0..3).all(|i| !g.redirects.contains_key(&specs[i]));
-    let mut case = Case { in_scope, graph: g, ctx: Ctx::default(), desc: desc.clone(), universe: specs.clone(), stale_final: HashSet::new() };
+    let mut case = Case { in_scope, graph: g, ctx: Ctx::default(), desc: desc.clone(), universe: specs.clone() };
     descs.push(desc);
     let id = descs.len() - 1;
     run_case(&mut report, &mut case, &mut reqs, &mut imps, &mut sets, &mut origin, id);
@@ -479,7 +475,7 @@ pub fn run(tier: &str, seed: u64) -> Report {
       }
     };
     let desc = json!({"source": "built-world", "world_seed_index": wi, "world": w.describe()});
-    let mut case = Case { in_scope: true, graph: g, ctx: Ctx::default(), desc: desc.clone(), universe: w.specs.clone(), stale_final: HashSet::new() };
+    let mut case = Case { in_scope: true, graph: g, ctx: Ctx::default(), desc: desc.clone(), universe: w.specs.clone() };
     descs.push(desc);
     let id = descs.len() - 1;
     if wi < 2 {
@@ -532,16 +528,15 @@ pub fn run(tier: &str, seed: u64) -> Report {
       continue;
     };
     let desc = json!({"source": "built-world-with-lockfile-redirects", "lockfile_redirects": seeds, "world": w.describe()});
-    // seeded sources that the loader names as the final specifier of a module returned for another request
-    let stale_final: HashSet<ModuleSpecifier> = (0..w.specs.len())
+    // seeded sources that the loader names as the final specifier of a module returned for another
+    // request (the input of finding F35, repaired): the module sits under a redirect source
+    let reported_as_final = (0..w.specs.len())
       .filter(|t| seeds.iter().any(|(a, _)| *a == w.specs[*t].to_string()))
-      .filter(|t| w.resp.iter().enumerate().any(|(i, r)| i != *t && matches!(r, Resp::Module { final_spec, .. } if *final_spec == *t)))
-      .map(|t| w.specs[t].clone())
-      .collect();
-    if !stale_final.is_empty() {
+      .any(|t| w.resp.iter().enumerate().any(|(i, r)| i != t && matches!(r, Resp::Module { final_spec, .. } if *final_spec == t)));
+    if reported_as_final {
       report.count("built-worlds-with-lockfile-redirects:seeded-source-reported-as-final");
     }
-    let mut case = Case { in_scope: true, graph: g, ctx: Ctx::default(), desc: desc.clone(), universe: w.specs.clone(), stale_final };
+    let mut case = Case { in_scope: true, graph: g, ctx: Ctx::default(), desc: desc.clone(), universe: w.specs.clone() };
     descs.push(desc);
     let id = descs.len() - 1;
     run_case(&mut report, &mut case, &mut reqs, &mut imps, &mut sets, &mut origin, id);
